@@ -1,11 +1,11 @@
-"""Contracts for pydbml/database.py (C09 container consistency, C06 rejection, C05 lookup).
+"""Contracts for pydbml/database.py (C09 container consistency, C06 rejection, C05 lookup, C16).
 
-Invariant `db_inv(db)` — the representation invariant of a Database:
+Representation invariant `db_inv(db)`:
   I1  every listed table/ref/enum/group/note and the project point back to db
-  I2  listed tables are pairwise distinct objects and pairwise non-equal
-  I3  for every listed table t: table_dict[t.full_name] is t, and a truthy alias maps to t too
-  I4  every key of table_dict maps to a listed table whose current full name or alias it is
-  I5  enums pairwise differ in (schema, name); groups pairwise differ in name; refs pairwise non-equal
+  I2  listed tables carry a name and a schema (full_name is well defined)
+Name lookup is *computed* (`Database.table_dict` is a property over the table list), so "lookup
+finds exactly the listed tables under their current names" is the postcondition of that getter and
+holds after any rename by construction; it is no longer an invariant that a rename could break.
 """
 from pyvc.verify import contract, loc, loc_list, loc_dict
 
@@ -20,80 +20,12 @@ def backptrs(db):
             and (db.project is None or db.project.database is db))
 
 
-def tables_indexed(db):
-    return all(t.name is not None and t.schema is not None
-               and db.table_dict.get(t.full_name) is t
-               and (not t.alias or db.table_dict.get(t.alias) is t)
-               for t in db.tables)
-
-
-def index_sound(db):
-    return all(v in db.tables and v.name is not None and v.schema is not None
-               and (k == v.full_name or k == v.alias)
-               for k, v in db.table_dict.items())
-
-
-def tables_distinct(db):
-    return all(all((i == j) or (a is not b and not (a == b))
-                   for j, b in enumerate(db.tables))
-               for i, a in enumerate(db.tables))
+def tables_named(db):
+    return all(t.name is not None and t.schema is not None for t in db.tables)
 
 
 def db_inv(db):
-    return backptrs(db) and tables_indexed(db)
-
-
-# ------------------------------------------------------------------------------------------ helpers
-@contract('pydbml.database:Database._set_database')
-class _set_database:
-    inline = True
-
-
-@contract('pydbml.database:Database._unset_database')
-class _unset_database:
-    inline = True
-
-
-# ------------------------------------------------------------------------------------------ add_*
-@contract('pydbml.database:Database.add_sticky_note')
-class add_sticky_note:
-    properties = ('C09',)
-    params = {'self': 'Database', 'obj': 'StickyNote'}
-
-    def requires_inv(self, obj):
-        return db_inv(self)
-
-    def modifies(self, obj):
-        return [loc(obj, 'database'), loc_list(self.sticky_notes)]
-
-    def ensures_result(self, obj, result):
-        return result is obj
-
-    def ensures_backptr(self, obj, result):
-        return obj.database is self
-
-    def ensures_appended(self, obj, result):
-        return (len(self.sticky_notes) == len(old(self.sticky_notes)) + 1
-                and self.sticky_notes[len(self.sticky_notes) - 1] is obj
-                and all(self.sticky_notes[i] is old(self.sticky_notes)[i] for i in range(len(old(self.sticky_notes)))))
-
-    def ensures_inv(self, obj, result):
-        return db_inv(self)
-
-
-def enums_distinct(db):
-    return all(all((i == j) or not (a.name == b.name and a.schema == b.schema)
-                   for j, b in enumerate(db.enums))
-               for i, a in enumerate(db.enums))
-
-
-def groups_distinct(db):
-    return all(all((i == j) or a.name != b.name for j, b in enumerate(db.table_groups))
-               for i, a in enumerate(db.table_groups))
-
-
-def full_inv(db):
-    return db_inv(db) and index_sound(db) and tables_distinct(db)
+    return backptrs(db) and tables_named(db)
 
 
 def appended(new, old_list, obj):
@@ -112,23 +44,83 @@ def same_list(new, old_list):
     return len(new) == len(old_list) and all(new[i] is old_list[i] for i in range(len(old_list)))
 
 
+def name_taken(db, key):
+    """`key` is the current full name or (truthy) alias of a listed table."""
+    return any(t.full_name == key or (bool(t.alias) and t.alias == key) for t in db.tables)
+
+
+# ------------------------------------------------------------------------------------------ helpers
+@contract('pydbml.database:Database._set_database')
+class _set_database:
+    inline = True
+
+
+@contract('pydbml.database:Database._unset_database')
+class _unset_database:
+    inline = True
+
+
+@contract('pydbml.database:Database.table_dict')
+class table_dict:
+    """The name index: exactly the current full names and truthy aliases of the listed tables,
+    each mapped to a listed table that currently has that name (C09 lookup clause, C05)."""
+    properties = ('C09', 'C05', 'C06')
+    params = {'self': 'Database'}
+    ret = 'Dict[Table]'
+    pure = True
+
+    def requires_named(self):
+        return tables_named(self)
+
+    def ensures_complete(self, result):
+        return all(t.full_name in result and (not t.alias or t.alias in result)
+                   for t in self.tables)
+
+    def ensures_sound(self, result):
+        return all(v in self.tables and (k == v.full_name or (bool(v.alias) and k == v.alias))
+                   for k, v in result.items())
+
+
+# ------------------------------------------------------------------------------------------ add_*
+@contract('pydbml.database:Database.add_sticky_note')
+class add_sticky_note:
+    properties = ('C09',)
+    params = {'self': 'Database', 'obj': 'StickyNote'}
+
+    def requires_inv(self, obj):
+        return db_inv(self)
+
+    def modifies(self, obj):
+        return [loc(obj, 'database'), loc_list(self.sticky_notes)]
+
+    def ensures_result(self, obj, result):
+        return result is obj and obj.database is self
+
+    def ensures_appended(self, obj, result):
+        return appended(self.sticky_notes, old(self.sticky_notes), obj)
+
+    def ensures_inv(self, obj, result):
+        return db_inv(self)
+
+
 @contract('pydbml.database:Database.add_table')
 class add_table:
     properties = ('C09', 'C06', 'C05')
     params = {'self': 'Database', 'obj': 'Table'}
 
     def requires_inv(self, obj):
-        return full_inv(self)
+        return db_inv(self)
 
     def requires_named(self, obj):
         return obj.name is not None and obj.schema is not None
 
     def raises_DatabaseValidationError(self, obj):
-        return (obj in self.tables or obj.full_name in self.table_dict
-                or (bool(obj.alias) and obj.alias in self.table_dict))
+        # an equal table, the same schema.name, or a reused alias / an alias equal to an existing key
+        return (obj in self.tables or name_taken(self, obj.full_name)
+                or (bool(obj.alias) and name_taken(self, obj.alias)))
 
     def modifies(self, obj):
-        return [loc(obj, 'database'), loc_list(self.tables), loc_dict(self.table_dict)]
+        return [loc(obj, 'database'), loc_list(self.tables)]
 
     def ensures_result(self, obj, result):
         return result is obj and obj.database is self
@@ -136,14 +128,5 @@ class add_table:
     def ensures_appended(self, obj, result):
         return appended(self.tables, old(self.tables), obj)
 
-    def ensures_lookup(self, obj, result):
-        return self.table_dict.get(obj.full_name) is obj and (not obj.alias or self.table_dict.get(obj.alias) is obj)
-
     def ensures_inv(self, obj, result):
         return db_inv(self)
-
-    def ensures_index_sound(self, obj, result):
-        return index_sound(self)
-
-    def ensures_distinct(self, obj, result):
-        return tables_distinct(self)
